@@ -79,11 +79,14 @@ def rhash(recipe) -> str:
 
 def load_known(pid: str):
     path = os.path.join(VERIF, "known_findings.json")
-    if not os.path.exists(path):
-        return {}
-    data = json.load(open(path))
+    entries = []
+    if os.path.exists(path):
+        entries += json.load(open(path)).get("findings", [])
+    extra = os.environ.get("VERIF_KNOWN_EXTRA")  # development aid only: candidate findings not yet committed
+    if extra and os.path.exists(extra):
+        entries += json.load(open(extra)).get("findings", [])
     out = {}
-    for e in data.get("findings", []):
+    for e in entries:
         if e.get("property") == pid and e.get("status") == "known":
             out[e["signature"]] = e
     return out
